@@ -2,7 +2,7 @@
 # trymut.sh <prop> <patch file>...   apply each patch to a scratch copy of /repo (never /repo itself),
 # run ./check <prop> against the copy, remove the copy
 prop=$1; shift
-for p in "$@"; do p=$(readlink -f "$p")
+for p in "$@"; do p=$(readlink -f "$p"); [ -f "$p" ] || { echo "== $p missing"; continue; }
   tmp=$(mktemp -d /tmp/trymut_XXXXXX)
   rsync -a --exclude target --exclude .git /repo/ $tmp/repo/
   if (cd $tmp/repo && patch -p1 -s -i "$p" >/dev/null 2>&1); then
